@@ -17,7 +17,7 @@ from . import common
 
 GC_FLAGS = ('DEBUG_STATS', 'DEBUG_COLLECTABLE', 'DEBUG_UNCOLLECTABLE')   # (SAVEALL/LEAK keep every object alive)
 ENDINGS = ('pass', 'failures', 'testSetUp-raises', 'testTearDown-raises', 'kbd-body', 'kbd-setUp', 'kbd-tearDown',
-           'stop-on-error', 'layer-setUp-raises', 'layer-tearDown-raises', 'leaked-stream')
+           'stop-on-error', 'layer-setUp-raises', 'layer-tearDown-raises', 'leaked-stream', 'list-tests', 'nested-run')
 
 
 @st.composite
@@ -44,6 +44,10 @@ def cases(draw):
         victim['exc'] = 'ValueError'
         victim.setdefault('acts', {}).setdefault(draw(st.sampled_from(['setUp', 'body'])), []).append(
             ['swap', 'leak', draw(st.sampled_from(['o', 'e', 'oe']))])
+    elif ending == 'nested-run':
+        # a test that runs the test runner itself, in process (the project's own doctests do that)
+        victim['k'] = 'pass'
+        victim.setdefault('acts', {}).setdefault('body', []).append(['nested_run', draw(st.sampled_from([[], ['--gc', '5'], ['-vv']]))])
     elif ending in ('layer-setUp-raises', 'layer-tearDown-raises'):
         L = spec['layers'][draw(st.integers(0, len(spec['layers']) - 1))]
         L.setdefault('faults', {})[ending.split('-')[1]] = 'ValueError'
@@ -76,6 +80,7 @@ def cases(draw):
     o['repeat'] = draw(st.sampled_from([1, 1, 2]))
     init = {
         'gc_threshold': draw(st.sampled_from([None, [700, 10, 10], [123, 4, 5], [0, 0, 0], [5000, 50, 100]])),
+        # (DEBUG_SAVEALL / DEBUG_LEAK as initial state keep every collected object alive in the worker: not generated)
         'gc_debug': draw(st.sampled_from([0, 0, gc.DEBUG_UNCOLLECTABLE])),
         'filters': draw(st.integers(0, 3)),
         'patched_tb': draw(st.booleans()),
@@ -150,7 +155,7 @@ class InProc(Part):
         if o.get('gc_after_test'):
             args.append('--gc-after-test')
         args += common.args_of({'buffer': o.get('buffer'), 'stop': o.get('stop'), 'verbose': o.get('verbose', 0),
-                                'repeat': o.get('repeat', 1)})
+                                'repeat': o.get('repeat', 1), 'list': case['ending'] == 'list-tests'})
         state = {}
         saved = {'thr': gc.get_threshold(), 'dbg': gc.get_debug(), 'filters': list(warnings.filters),
                  'tb': (traceback.format_exception, traceback.print_exception), 'warnoptions': list(sys.warnoptions)}
